@@ -20,7 +20,7 @@ LEVEL = "model_checking"
 META = {
     "engine": "ilv",
     "technique": "preemption-bounded exhaustive interleaving exploration of real combinators fed by 2-3 source threads, with an overlap/grammar monitor downstream",
-    "text": "for merge, merge_all, flat_map, zip, combine_latest, with_latest_from, amb, window_with_time, window_with_time_or_count: every pair (triple) of short per-source "
+    "text": "for merge (also with max_concurrent), merge_all, flat_map (outer sequence on its own thread, completing or failing), zip, combine_latest, with_latest_from, amb, window_with_time, window_with_time_or_count: every pair (triple) of short per-source "
     "sequences ending in completion or error, every interleaving (<=PB preemptions, line-level points in the operator's files): downstream calls never overlap and obey on_next* (on_error|on_completed)?",
     "note": "trusted: CPython, controlled primitives of vf/ilv.py; sources emit serially from their own thread; preemption at sync operations and line boundaries of the focus files (not inside a line)",
 }
@@ -36,6 +36,11 @@ FOCUS = {
     "merge_all:outer": ["operators/_merge.py", "internal/concurrency.py"],
     "flat_map:outer": ["operators/_flatmap.py", "operators/_merge.py", "internal/concurrency.py"],
     "switch_latest:outer": ["operators/_switchlatest.py", "internal/concurrency.py"],
+    "merge_all:outerE": ["operators/_merge.py", "internal/concurrency.py"],
+    "flat_map:outerE": ["operators/_flatmap.py", "operators/_merge.py", "internal/concurrency.py"],
+    "switch_latest:outerE": ["operators/_switchlatest.py", "internal/concurrency.py"],
+    "merge_mc:outer": ["operators/_merge.py", "internal/concurrency.py"],
+    "merge_mc:outerE": ["operators/_merge.py", "internal/concurrency.py"],
     "flat_map": ["operators/_flatmap.py", "operators/_merge.py", "internal/concurrency.py"],
     "zip": ["observable/zip.py", "internal/concurrency.py"],
     "combine_latest": ["observable/combinelatest.py", "internal/concurrency.py"],
@@ -58,6 +63,8 @@ class H:
         self.focus = ilv.focus_files(*FOCUS[op])
         self.timed = op.startswith("window")
         self.allow_horizon = False
+        # switch_latest is not among C43's operators: its harnesses are run by C12 with C12's oracles only
+        self.check_overlap = not op.startswith("switch_latest")
 
     def setup(self, run):
         import reactivex
@@ -114,13 +121,16 @@ class H:
             o = reactivex.merge(*subs)
         elif op == "merge_all":
             o = reactivex.of(*subs).pipe(ops.merge_all())
-        elif op == "switch_latest:outer":
+        elif op.startswith("switch_latest:outer"):
             st["outer"] = Subject()
             o = st["outer"].pipe(ops.switch_latest())
-        elif op in ("merge_all:outer", "flat_map:outer"):
-            # the outer sequence is driven by its own thread too: it hands out the inner subjects and completes
+        elif ":outer" in op:
+            # the outer sequence is driven by its own thread too: it hands out the inner subjects and completes (":outerE": fails)
             st["outer"] = Subject()
-            o = st["outer"].pipe(ops.merge_all() if op == "merge_all:outer" else ops.flat_map(lambda x: x))
+            base = op.split(":")[0]
+            # (an identity stage in between: the operator's source must not be the Subject itself, whose own lock would
+            # serialize the outer notifications with the inner ones by coincidence)
+            o = st["outer"].pipe(ops.map(lambda x: x), {"merge_all": ops.merge_all, "flat_map": lambda: ops.flat_map(lambda x: x), "merge_mc": lambda: ops.merge(max_concurrent=2)}[base]())
         elif op == "flat_map":
             o = reactivex.of(*range(n)).pipe(ops.flat_map(lambda i: subs[i]))
         elif op == "zip":
@@ -162,12 +172,15 @@ class H:
             return body
 
         bodies = [mk(i, s) for i, s in enumerate(self.seqs)]
-        if self.op.endswith(":outer"):
+        if ":outer" in self.op:
             def outer_body():
                 for sub in st["subs"]:
                     st["outer"].on_next(sub)
                 st["outer_done"] = True
-                st["outer"].on_completed()
+                if self.op.endswith("E"):
+                    st["outer"].on_error(Boom("outer"))
+                else:
+                    st["outer"].on_completed()
 
             bodies.insert(0, outer_body)
         if self.timed:
@@ -187,7 +200,7 @@ class H:
         if x.outcome != "quiescent":
             return []
         P = []
-        if st["overlaps"]:
+        if st["overlaps"] and self.check_overlap:
             P.append((f"{self.op}|overlapping-downstream-calls", f"downstream entered concurrently: {st['overlaps'][:3]} logs={ {k: ''.join(v) for k, v in st['logs'].items()} }"))
         if self.timed:
             # a window that ended before the source terminated must have lived its timespan (1.0) or, for
@@ -199,7 +212,7 @@ class H:
                 full = self.op == "window_with_time_or_count" and m["n"] >= 2
                 if not full and m["close"] - m["open"] < 1.0 - 1e-9:
                     P.append((f"{self.op}|window-closed-early", f"window {name} opened at clock {m['open']} closed at {m['close']} with {m['n']} elements (timespan 1.0" + (", count 2)" if self.op.endswith("count") else ")")))
-        if not self.timed and all(q[-1] == "C" for q in self.seqs):
+        if not self.timed and all(q[-1] == "C" for q in self.seqs) and not self.op.endswith(":outerE"):
             # every combinator of the list completes at the latest when all of its sources have completed (merge family: C11's
             # rule; zip/combine_latest/with_latest_from/amb: C13's rules) — here under threads: a completion must not get lost
             if "".join(st["logs"]["out"])[-1:] != "C":
@@ -227,11 +240,13 @@ def harnesses(tier):
         if tier == "thorough" and op in ("merge", "zip", "combine_latest"):
             for tr in itertools.combinations_with_replacement(SEQ_Q, 3):
                 hs.append(H(op, tr))
-    for op in ("merge_all:outer", "flat_map:outer", "switch_latest:outer"):
+    for op in ("merge_all:outer", "flat_map:outer", "merge_mc:outer", "merge_all:outerE", "flat_map:outerE", "merge_mc:outerE"):
         inner = [("C",), ("N", "C"), ("N", "E")] if tier == "quick" else SEQ_T
+        if tier == "quick" and op.endswith("E"):
+            inner = [("N", "C")] if op != "merge_all:outerE" else [("N", "C"), ("N", "E")]
         for a in inner:
             hs.append(H(op, (a,)))
-        if tier == "thorough" and op != "switch_latest:outer":
+        if tier == "thorough":
             for a, b in itertools.combinations_with_replacement(SEQ_Q, 2):
                 hs.append(H(op, (a, b)))
     for op in ("window_with_time", "window_with_time_or_count"):
@@ -242,6 +257,12 @@ def harnesses(tier):
         for s in seqs_w:
             hs.append(H(op, (s,)))
     return hs
+
+
+def switch_harnesses(tier):
+    """switch_latest with the outer sequence and the inner on their own threads: run by C12 (not a C43 operator)."""
+    inner = [("C",), ("N", "C"), ("N", "E")] if tier == "quick" else SEQ_T
+    return [H(op, (a,)) for op in ("switch_latest:outer", "switch_latest:outerE") for a in inner]
 
 
 def bounds(tier, h):
